@@ -575,6 +575,32 @@ Definition one_kind (bs : list schema) : option tagty :=
       end
   end.
 
+(* the union a node carries: "oneOf", else "anyOf" *)
+Definition union_of (oneo anyo : option (list schema)) : option (list schema) :=
+  match anyo with
+  | None => oneo              (* so that [union_of oneo None] IS [oneo] (by computation) *)
+  | Some _ => match oneo with Some _ => oneo | None => anyo end
+  end.
+
+(* convert.rs:1470-1500 convert_any_of: maybe_option first; then, when the arms are pairwise mutually exclusive
+   (util.rs:45-58 - for plain scalar arms: the single types differ pairwise), convert_one_of.  The model takes the
+   Option form and plain scalar arms of pairwise different types; everything else (the flattened-union struct,
+   exclusivity of objects / arrays) is classified out. *)
+Definition any_kind (bs : list schema) : option kind :=
+  match opt_shape bs with
+  | Some true => Some KOpt
+  | Some false =>
+      match opt_all_map scalar_arm bs with
+      | Some tys =>
+          if (fix nd (l : list itype) : bool :=
+                match l with [] => true | x :: r => negb (existsb (itype_eqb x) r) && nd r end) tys
+             && one_untagged bs
+          then Some (KOne TagUntagged) else None
+      | None => None
+      end
+  | None => None
+  end.
+
 Section Classify.
   Variable ty : option (list itype).
   Variable fmt : option ustring.
@@ -695,6 +721,11 @@ Section Classify.
     && is_none ai && is_none mnp && is_none mxp && is_none allo && is_none anyo && is_none no && is_none ref
     && is_none dflt && is_none title.
 
+  Definition only_any : bool :=
+    is_none ty && is_none fmt && is_none enum && is_none cst && no_array && no_object && no_num && no_str && no_len
+    && is_none ai && is_none mnp && is_none mxp && is_none allo && is_none no && is_none ref
+    && is_none dflt && is_none title.
+
   Definition classify : option (bool * kind) :=
     match oneo with
     | Some bs =>
@@ -705,6 +736,9 @@ Section Classify.
           | None => None
           end
         else None
+    | None =>
+    match anyo with
+    | Some bs => if only_any then option_map (pair false) (any_kind bs) else None
     | None =>
     if negb no_extras then None else
     match ty with
@@ -721,6 +755,7 @@ Section Classify.
           | None => Some (false, KAny)
           end
         else None
+    end
     end
     end.
 End Classify.
@@ -1181,7 +1216,7 @@ Section Convert.
         fun nm s0 =>
         conv_node conv
           (classify ty fmt enum cst nv sv ik items ai mni mxi uq props req ap mnp mxp allo anyo oneo no ref dflt title)
-          nm items props req ap oneo s0
+          nm items props req ap (union_of oneo anyo) s0
     end.
 
   (* lib.rs:734-795 convert_ref_type, for the definition [d] with pre-assigned id [t] *)
@@ -1337,6 +1372,9 @@ Definition opt_arm_ok (x : schema) : bool :=
   | _ => false
   end.
 
+(* the theorems of Props/C0xF.v cover the unions written with "oneOf" so far; "anyOf" is in the model and K3 (frag_w) *)
+Definition proved_union (anyo : option (list schema)) : bool := is_none anyo.
+
 (* the taggings the theorems of Props/C0xF.v cover so far (the model and K3 cover all of them: frag_w) *)
 Definition proved_tag (tg : tagty) : bool :=
   match tg with _ => true end.
@@ -1472,14 +1510,14 @@ Section Frag.
                    | it :: r => names_of it (idx_name nm' i) ++ go r (S i)
                    end) items 0%nat
             | KOpt =>
-                match oneo with
+                match union_of oneo anyo with
                 | Some (a :: b :: nil) => if nullish a then names_of b (inner_name nm') else names_of a (inner_name nm')
                 | _ => []
                 end
             | KOne tg =>
                 (* the payloads / members below the branches (a dissolved struct's own name is listed
                    although the struct itself never gets an id: it only asks for one more fresh name) *)
-                match oneo with
+                match union_of oneo anyo with
                 | Some bs =>
                     (fix go (l : list schema) {struct l} : list ustring :=
                        match l with
@@ -1535,13 +1573,15 @@ Section Frag.
             | KRef r => mem_ustr r keys
             | KOpt =>
                 (* the arm in the fragment, not itself nullable / an Option / null *)
-                match oneo with
+                proved_union anyo &&
+                match union_of oneo anyo with
                 | Some (a :: b :: nil) =>
                     if nullish a then opt_arm_ok b && frag b else opt_arm_ok a && frag a
                 | _ => false
                 end
             | KOne tg =>
-                match oneo with
+                proved_union anyo &&
+                match union_of oneo anyo with
                 | Some bs =>
                     match variant_names tg bs with
                     | Some names => match Sanitize.variant_idents cls names with Sanitize.Ok _ => true | _ => false end
@@ -1593,13 +1633,13 @@ Section Frag.
             | KRef r => mem_ustr r keys
             | KOpt =>
                 (* the arm in the fragment, not itself nullable / an Option / null *)
-                match oneo with
+                match union_of oneo anyo with
                 | Some (a :: b :: nil) =>
                     if nullish a then opt_arm_ok b && frag_w b else opt_arm_ok a && frag_w a
                 | _ => false
                 end
             | KOne tg =>
-                match oneo with
+                match union_of oneo anyo with
                 | Some bs =>
                     match variant_names tg bs with
                     | Some names => match Sanitize.variant_idents cls names with Sanitize.Ok _ => true | _ => false end
@@ -1630,12 +1670,12 @@ Fixpoint byval_refs (s : schema) {struct s} : list ustring :=
       | Some (_, KStruct _) => flat_map (fun kv => byval_refs (snd kv)) props
       | Some (_, KVec (CArr _)) | Some (_, KTuple) => flat_map byval_refs items      (* [T; n] contains T by value (cycles.rs:169) *)
       | Some (_, KOpt) =>
-          match oneo with
+          match union_of oneo anyo with
           | Some (a :: b :: nil) => if nullish a then byval_refs b else byval_refs a
           | _ => []
           end
       | Some (_, KOne tg) =>              (* the variants' data is held by value *)
-          match oneo with
+          match union_of oneo anyo with
           | Some bs =>
               (fix go (l : list schema) {struct l} : list ustring :=
                  match l with
@@ -1729,9 +1769,9 @@ Fixpoint no_nullable_enum (s : schema) {struct s} : bool :=
       | Some (_, KStruct _) => forallb (fun kv => no_nullable_enum (snd kv)) props
       | Some (_, KMap) => match ap with Some vs => no_nullable_enum vs | None => true end
       | Some (_, KVec _) | Some (_, KTuple) => forallb no_nullable_enum items
-      | Some (_, KOne _) => match oneo with Some bs => no_pinned bs | None => true end
+      | Some (_, KOne _) => match union_of oneo anyo with Some bs => no_pinned bs | None => true end
       | Some (_, KOpt) =>
-          match oneo with
+          match union_of oneo anyo with
           | Some (a :: b :: nil) => if nullish a then no_nullable_enum b else no_nullable_enum a
           | _ => true
           end
